@@ -84,6 +84,7 @@ func RunC09(st *simcore.Stream, tier, leg string, logOn bool, res *simcore.Resul
 			ctx, cf := context.WithTimeout(context.Background(), 10*time.Minute)
 			if doAsk {
 				a := w.AskOnce(ctx, ep, to, 0, n, mtu)
+				n = len(a.Req) // requests are at least 12 bytes (unique, self-describing)
 				w.WaitQuiet()
 				res.Checks++
 				switch {
